@@ -2,6 +2,8 @@ import CifModel.Lemmas.Serialize
 import CifModel.Lemmas.Columns
 import CifModel.Lemmas.NumbRoundtrip
 import CifModel.Lemmas.NumbAutoinit
+import CifModel.Lemmas.StoreValue
+import CifModel.Lemmas.StoreInv
 /-
   Property C07 — values stored in a CIF are read back identical.
 
@@ -203,6 +205,76 @@ theorem C07_numb_list_roundtrip (ts : List (Bool × Str)) :
   induction ts with
   | nil => rfl
   | cons p ts ih => simp [numbsParseList, C07_numb_in_list_partial p.1 p.2, ih]
+
+/-! ### store and read back (composition with the store model of property C04, group gF)
+
+  The store model keeps, per (container, item, packet row), a value `V` — i.e. it treats "bind the value's columns with
+  SET_VALUE_PROPS, let SQLite keep the row, rebuild the value with GET_VALUE_PROPS" as the identity on values.
+  `C07_columns_roundtrip` is what justifies that for every well-formed value (row accepted by the CHECK constraints,
+  `fromColumns (toColumns v) = v`, lists and tables through serialise → blob → deserialise, numbers re-parsed from their
+  text — `C07_numb_in_list`).  On top of it, the theorems below say that each storing route leaves exactly the given
+  value in the cell(s) it addresses, and that the reading statements deliver the cells. -/
+
+open CifModel.Store in
+/-- **C07_store_read** — `cif_container_set_value` then `cif_container_get_value`, both paths of set_value (the item
+    exists: every packet of its loop; the item is new: the container's scalar loop), for every well-formed value:
+    the row the C writes passes the CHECK constraints and decodes to `v`; the call succeeds resp. — where creating the
+    scalar item can fail for reasons of the store (C04) — if it succeeds, every value stored for the item is `v` and
+    get_value delivers `v` (for an existing item of a loop without packets: CIF_NOSUCH_ITEM, nothing is stored). -/
+theorem C07_store_read (s : Store) (h : CH) (n : Name) (v : V) (hwf : wfValue parseFields v = true)
+    (hv : n.valid = true) (hac : s.autocommit = true) :
+    (∃ row, toColumns v = some row ∧ checks row = true ∧ fromColumns parseFields row = some v)
+    ∧ (∀ l, getItemLoopInternal s.db h.id n.key = .ok l →
+        (setValue s h (some n) (some v)).2 = .ok ()
+        ∧ ((getValue (setValue s h (some n) (some v)).1 h (some n)).2 = .error Gen.ErrCodes.CIF_NOSUCH_ITEM
+            ∨ ∃ b, (getValue (setValue s h (some n) (some v)).1 h (some n)).2 = .ok (v, b)))
+    ∧ (getItemLoopInternal s.db h.id n.key = .error Gen.ErrCodes.CIF_NOSUCH_ITEM →
+        (setValue s h (some n) (some v)).2 = .ok () →
+        ∃ b, (getValue (setValue s h (some n) (some v)).1 h (some n)).2 = .ok (v, b)) := by
+  refine ⟨C07_columns_roundtrip parseFields v hwf, ?_, ?_⟩
+  · intro l hl
+    have := setValue_existing_read s h n v l hv hac hl
+    exact ⟨this.1, this.2.2⟩
+  · intro hnew hok
+    obtain ⟨hall, row, hcell⟩ := setValue_new_read s h n v hv hac hnew hok
+    exact getValue_delivers _ h n v hv hall row hcell
+
+open CifModel.Store in
+/-- **… through cif_loop_add_item** (the value becomes the item's value in every existing packet), **cif_loop_add_packet**
+    (a new packet row holding every value of the packet) and **cif_pktitr_update_packet** (the current row; other cells
+    untouched) -/
+theorem C07_store_read_loop_routes (s : Store) (l : LH) :
+    (∀ (n : Name) (v : V), n.valid = true → (addItem s l (some n) (some v)).2 = .ok () →
+        (addItem s l (some n) (some v)).1.db.AllVals l.cid n.key v
+        ∧ ∃ d1, s.db.insertItem l.cid n.key n.orig l.loopNum = some d1
+            ∧ ∀ r ∈ d1.loopRows l.cid l.loopNum, (addItem s l (some n) (some v)).1.db.cell l.cid n.key r = some v)
+    ∧ (∀ pkt, (addPacket s l pkt).2 = .ok () →
+        ∃ row, ∀ e ∈ pkt, (addPacket s l pkt).1.db.cell l.cid e.1 row = some e.2)
+    ∧ (∀ (it : Iter) pkt, keysDistinct pkt → (updatePacket s it pkt).2 = .ok () →
+        (∀ e ∈ pkt, (updatePacket s it pkt).1.db.cell it.cid e.1 it.prev.toNat = some e.2)
+        ∧ ∀ k' row', (∀ e ∈ pkt, ¬(k' = e.1 ∧ row' = it.prev.toNat)) →
+            (updatePacket s it pkt).1.db.cell it.cid k' row' = s.db.cell it.cid k' row') :=
+  ⟨fun n v hv hok => addItem_read s l n v hv hok, fun pkt hok => addPacket_read s l pkt hok,
+   fun it pkt hd hok => updatePacket_read s it pkt hd hok⟩
+
+open CifModel.Store in
+/-- **the reading statements deliver the cells**: every row GET_VALUE_SQL (cif_container_get_value) or GET_LOOP_VALUES_SQL
+    (packet iteration, cif_walk) returns is a row of the table, and — the primary key of item_value being unique, which
+    the store invariant `Inv` of C04 guarantees in every reachable state — carries the value of its cell -/
+theorem C07_store_read_delivers_cells (d : Db) (hinv : Inv d) (cid ln : Nat) (k : Str) :
+    (∀ w ∈ d.valuesOf cid k, w.cid = cid ∧ w.name = k ∧ d.cell cid k w.rowNum = some w.val)
+    ∧ (∀ w ∈ d.loopValues cid ln, w.cid = cid ∧ d.cell cid w.name w.rowNum = some w.val) := by
+  constructor
+  · intro w hw
+    obtain ⟨hm, hc, hn⟩ := mem_valuesOf d cid k w hw
+    have := cell_of_mem d hinv.valuePK w hm
+    rw [hc, hn] at this
+    exact ⟨hc, hn, this⟩
+  · intro w hw
+    obtain ⟨hm, hc⟩ := mem_loopValues d cid ln w hw
+    have := cell_of_mem d hinv.valuePK w hm
+    rw [hc] at this
+    exact ⟨hc, this⟩
 
 /-! ### non-vacuity -/
 
